@@ -20,7 +20,9 @@ RULE = ('source streams of few chunks (zeros, random bytes, clean images of the 
         'the expected one included), a bounded family of allowed_formats, file-like (read) and iterator (next) '
         'sources; plus genuine parser errors raised by crafted content (VHDX bad region signature / region count / '
         'metadata signature on >= 256 KiB streams, VMDK bad version and descriptor location) with and without '
-        'injected faults; and clean images of every format read with zero-length reads in mid-stream and further '
+        'injected faults; the exception type of a fault varied over 18 classes (struct.error, ImageFormatError, OSError, '
+        'plain Exception subclasses ...), raised in front of eat_chunk or from post_process inside it; faults inside '
+        'the complete / format_match properties; and clean images of every format read with zero-length reads in mid-stream and further '
         'reads after EOF, with expected_format = that format / raw / none. Compared: length and adler32 of the bytes returned, number of chunks returned, how the '
         'stream ended, per-inspector feed log and errored marks (for the chunk on which the stream was cut off only '
         'the order-independent part). A case is non-trivial when at least one fault fired or the stream was cut '
@@ -85,6 +87,44 @@ def plan_cases(ctx):
             names.append(e)
         fl = sorted({(rng.choice(names), rng.randrange(max(1, nch))) for _ in range(rng.randint(2, 5))})
         out.append((label, data, sizes, rng.choice([None, None, None] + G.C06_ALLOWED[1:]), e, fl, rng.random() < 0.5))
+    # the exception TYPE of the fault (struct.error, ValueError, KeyError, IndexError, ImageFormatError, OSError,
+    # plain Exception subclasses ...) x expected / non-expected inspector x chunk index; raised in front of
+    # eat_chunk or from post_process in the middle of it
+    typed = streams[:8] if quick else streams
+    for label, data, sizes in typed:
+        nch = len(sizes)
+        for tname in G.EXC_TYPES:
+            for where in ('eat', 'post'):
+                for _ in range(2 if quick else 6):
+                    name = rng.choice(G.ALLF)
+                    e = rng.choice([None, name, name, rng.choice(G.ALLF)])
+                    out.append((label, data, sizes, None, e, [(name, rng.randrange(nch), '%s:%s' % (where, tname))],
+                                rng.random() < 0.5))
+    for _ in range(300 if quick else 4000):
+        label, data, sizes = rng.choice(streams)
+        nch = max(1, len(sizes))
+        e = rng.choice(exps)
+        fl = sorted({(rng.choice(G.ALLF + ([e] if e else [])), rng.randrange(nch),
+                      '%s:%s' % (rng.choice(['eat', 'post']), rng.choice(G.EXC_TYPES)))
+                     for _ in range(rng.randint(1, 4))})
+        if len({(n, k) for n, k, _ in fl}) == len(fl):
+            out.append((label, data, sizes, rng.choice([None, None] + G.C06_ALLOWED[1:]), e, fl, rng.random() < 0.5))
+    # faults inside the `complete` / `format_match` properties of inspectors other than the expected one: the
+    # model's processLoop never evaluates them, so they must be invisible (qcow2's format_match is read by its
+    # own region_complete inside eat_chunk, which makes it an eat_chunk fault: left to the search)
+    for label, data, sizes in typed:
+        nch = len(sizes)
+        for name in G.ALLF:
+            for prop in ('complete', 'format_match'):
+                if (name, prop) == ('qcow2', 'format_match'):
+                    continue
+                for _ in range(1 if quick else 3):
+                    e = rng.choice([x for x in exps if x != name])
+                    fl = [(name, rng.randrange(nch), prop)]
+                    if rng.random() < 0.4:
+                        other = rng.choice([x for x in G.ALLF if x != name])
+                        fl.append((other, rng.randrange(nch), 'eat:' + rng.choice(G.EXC_TYPES)))
+                    out.append((label, data, sizes, None, e, fl, rng.random() < 0.5))
     # content that matches the expected format, zero-length reads in mid-stream, reads after EOF
     for f, label, data, sizes in G.c06_matching(rng, quick):
         others = [x for x in G.ALLF if x != f]
@@ -104,6 +144,11 @@ def plan_cases(ctx):
     return out
 
 
+def show_fault(f):
+    n, k, kind = G.norm_fault(f)
+    return '%s@%d' % (n, k) + ('' if kind == 'eat:RuntimeError' else '[%s]' % kind)
+
+
 def case_of(label, data, sizes, allowed, expected, faults, iterator, must_complete=False):
     c = {'label': label, 'content': insp_impl.content_field(data), 'sizes': list(sizes), 'allowed': allowed,
          'expected': expected, 'faults': [list(f) for f in faults], 'iterator': bool(iterator)}
@@ -119,7 +164,16 @@ def correspondence(ctx):
     out = []
     for (label, data, sizes, al, e, fl, it), rep in zip(cases, replies):
         ctx.evaluations += 1
-        impl, info = insp_impl.run_fault(al, e, data, sizes, fl, iterator=it)
+        if all(len(f) == 2 for f in fl):
+            impl, info = insp_impl.run_fault(al, e, data, sizes, fl, iterator=it)
+        else:       # typed / post_process / property faults: the instrumented runner, rendered the same way
+            t = G.pipe_trace(al, e, data, sizes, fl, it)
+            impl = G.render_trace(t)
+            info = {'end': impl.split('end=')[1].split('\t')[0], 'errored': t['errored']}
+            for f in fl:
+                ctx.count('fault-kind/' + f[2].split(':')[0])
+                if ':' in f[2]:
+                    ctx.count('fault-type/' + f[2].split(':')[1])
         ci, cm = G.canon_fault(impl, e), G.canon_fault(rep, e)
         ctx.count('corr/' + ('iterator' if it else 'file-like'))
         ctx.count('end/' + info['end'])
@@ -129,7 +183,7 @@ def correspondence(ctx):
             ctx.nontrivial((G.digest(data), tuple(sizes), tuple(fl), e, tuple(al or ()), it))
         if ctx.evaluations % 331 == 1:
             ctx.sample({'stream': label, 'chunk_sizes': sizes, 'expected_format': e, 'allowed_formats': al,
-                        'faults': ['%s@%d' % f for f in fl], 'source': 'iterator' if it else 'file-like',
+                        'faults': [show_fault(f) for f in fl], 'source': 'iterator' if it else 'file-like',
                         'implementation': ci.replace('\t', ' | ')}, 8)
         if ci != cm:
             out.append(Disagreement(case_of(label, data, sizes, al, e, fl, it), ci, cm))
@@ -170,7 +224,10 @@ def oracle(allowed, expected, data, sizes, faults, iterator, must_complete=False
             if res != 'ok':
                 abort = (k, 'own-error', res)
                 break
-            if isinstance(match, Exception):
+            if isinstance(comp, Exception):          # its `complete` property failed
+                abort = (k, 'own-error', comp)
+                break
+            if isinstance(match, Exception):         # its `format_match` property failed
                 abort = (k, 'own-error', match)
                 break
             if comp and not match:
@@ -266,6 +323,18 @@ def search(ctx, seeds, full=False):
                     run(label, data, sizes, None, e, fl, it, True)
         if len(fails) >= 6:
             return fails[:6]
+    # every exception type x raised in front of / in the middle of eat_chunk x expected or not; faults inside the
+    # complete / format_match properties of every inspector (the expected one included: its own error)
+    kinds_all = ['%s:%s' % (w_, t_) for w_ in ('eat', 'post') for t_ in G.EXC_TYPES] + ['complete', 'format_match']
+    for label, data, sizes in (streams[:6] if ctx.quick and not full else streams):
+        nch = len(sizes)
+        for kind in kinds_all:
+            for name in (G.ALLF if ':' not in kind else rng.sample(G.ALLF, 3)):
+                k = rng.randrange(nch)
+                for e in {None, name, rng.choice(G.ALLF)}:
+                    run(label, data, sizes, None, e, [(name, k, kind)], rng.random() < 0.5)
+        if len(fails) >= 6:
+            return fails[:6]
     # every single fault x expected on a few streams, both source kinds
     for label, data, sizes in (streams[:5] if ctx.quick and not full else streams):
         for name in G.ALLF:
@@ -286,6 +355,8 @@ def search(ctx, seeds, full=False):
         al = rng.choice([None, None] + G.C06_ALLOWED[1:])
         names = rng.sample(G.ALLF, rng.randint(1, 4)) + ([e] if e and rng.random() < 0.5 else [])
         fl = sorted({(rng.choice(names), rng.randrange(nch)) for _ in range(rng.randint(0, 5))})
+        if rng.random() < 0.5:
+            fl = [(n_, k_, rng.choice(kinds_all)) for n_, k_ in fl]
         run(label, data, sizes, al, e, fl, rng.random() < 0.5)
         if len(fails) >= 6:
             break
@@ -305,11 +376,16 @@ def replay(ctx, payload):
     fl = [tuple(f) for f in case.get('faults', [])]
     al, e, sizes, it = case.get('allowed'), case.get('expected'), case['sizes'], case.get('iterator', False)
     print('stream %s: %d bytes in chunks %s; expected_format=%s allowed_formats=%s faults=%s source=%s'
-          % (case.get('label'), len(data), sizes, e, al, ['%s@%d' % f for f in fl], 'iterator' if it else 'file-like'))
-    impl, _ = insp_impl.run_fault(al, e, data, sizes, fl, iterator=it)
-    model = ctx.driver.ask(G.fault_req(al, e, data, sizes, fl))
-    print('implementation:', G.canon_fault(impl, e).replace('\t', ' | '))
-    print('model         :', G.canon_fault(model, e).replace('\t', ' | '))
+          % (case.get('label'), len(data), sizes, e, al, [show_fault(f) for f in fl], 'iterator' if it else 'file-like'))
+    t = G.pipe_trace(al, e, data, sizes, fl, it)
+    print('implementation:', G.canon_fault(G.render_trace(t), e).replace('\t', ' | '))
+    if t['prop_reads']:
+        print('                faulty properties read:', sorted(set((n, p_, k) for n, p_, k, _ in t['prop_reads']))[:8])
+    try:
+        model = ctx.driver.ask(G.fault_req(al, e, data, sizes, fl))
+        print('model         :', G.canon_fault(model, e).replace('\t', ' | '))
+    except ValueError as ve:
+        print('model         : (%s)' % ve)
     why = oracle(al, e, data, sizes, fl, it, case.get('must_complete', False))
     print('property oracle on the implementation:', why)
     return 1 if why else 0
@@ -321,7 +397,8 @@ LEVEL_TEXT = ('Machine-checked proof (Lean 4) over a model of InspectWrapper._pr
               'of non-expected faults, an errored inspector is never fed again, cut-off exactly at the first failing or '
               'complete-and-unmatched chunk of the expected inspector). The model is tied to the code by an exhaustive '
               'single-fault / sampled multi-fault differential correspondence with in-process fault injection.')
-LEVEL_NOTE = ('Trusted: Lean kernel; the hand model; the fault-injection harness (wraps bound eat_chunk methods); which '
+LEVEL_NOTE = ('Trusted: Lean kernel; the hand model; the fault-injection harness (wraps bound eat_chunk / post_process and '
+              'swaps in subclasses whose complete / format_match raise; exception types varied); which '
               'other inspectors see the cut-off chunk depends on set order and is compared order-independently.')
 TECHNIQUE = 'Lean 4 theorems by induction over the chunk list + fault-injection correspondence + direct pipe oracle'
 DESIGN_REF = 'DESIGN.md section 5, C06'
